@@ -161,6 +161,42 @@ def changed_value(obj, f, pool):
     return None
 
 
+_GENERIC = {}
+
+
+def generic_queries(obj):
+    import inspect
+
+    cls = type(obj)
+    names = _GENERIC.get(cls)
+    if names is None:
+        names = []
+        for name in dir(cls):
+            if name.startswith('_') or name in ('but', 'children', 'iterate'):
+                continue
+            attr = inspect.getattr_static(cls, name)
+            if isinstance(attr, property):
+                names.append((name, 'property'))
+            elif inspect.isfunction(attr):
+                try:
+                    params = list(inspect.signature(attr).parameters.values())[1:]
+                except (TypeError, ValueError):
+                    continue
+                if all(p.default is not inspect.Parameter.empty or p.kind in (p.VAR_POSITIONAL, p.VAR_KEYWORD) for p in params):
+                    names.append((name, 'method'))
+        _GENERIC[cls] = names
+    out = []
+    for name, how in names:
+        if how == 'property':
+            out.append((f'.{name}', lambda name=name: getattr(obj, name)))
+        else:
+            def call(name=name):
+                res = getattr(obj, name)()
+                return list(res) if hasattr(res, '__next__') else res
+            out.append((f'.{name}()', call))
+    return out
+
+
 def ops_for(obj, pool, msg_types, passive=(), probes=True):
     """(name, thunk) for every call of the alphabet that applies to obj."""
     import hpl.rewrite as R
@@ -176,6 +212,10 @@ def ops_for(obj, pool, msg_types, passive=(), probes=True):
     ]
     for o in pool[:3]:
         ops.append(('== other', lambda o=o: (obj == o, o == obj)))
+    if probes:
+        # every public property and every public method that needs no argument, found by introspection
+        # (uid, is_* flags, data_type queries, iterators ...): a query must not write anything
+        ops += generic_queries(obj)
     if is_expr or is_pred or is_event:
         ops += [('external_references', lambda: obj.external_references()), ('contains_reference', lambda: obj.contains_reference('A')),
                 ('contains_self_reference', lambda: obj.contains_self_reference())]
@@ -574,7 +614,7 @@ def replay(w):
 def describe(tier):
     b = bounds(tier)
     return {
-        'rule': f"bases: parser results for every Bool/Num term with <= {b['nodes']} nodes (as expression and predicate), a 29-text family aimed at rewrites that build new parents around existing children (aggregates over sets, implications, negated disjunctions, quantifier splitting, operand flipping), 5 annotated properties, 6 API-built nodes around deliberately untyped shared children. Pool = base + up to 13 sub-objects + objects returned by earlier calls. Alphabet: ~45 calls per expression (printers, hash/==, children/iterate, 4 reference queries, is_fully_typed, cast to 12 type sets, but() same/changed per field, reshape, 2 replacements, simplify, split_and, refactor_reference, the this/var rewrites, constructors of every node class (operators, accessors, sets, ranges, function calls, quantifiers, predicates, events) around the object, schema check), predicate, event and property calls likewise. All sequences of <= {b['depth']} state-changing calls (family: {b['family_depth']}); plus histories of length 2 over twins (two equal, separately parsed objects with different metadata: 14 expression kinds, 2 predicates, 3 properties): every ordered pair of 26 calls (12 casts, 13 constructors around the node, reshape; predicates: 11 calls, properties: 10 calls), the first on one twin and the second on the other; every call is followed by a deep snapshot comparison of every pool object.",
+        'rule': f"bases: parser results for every Bool/Num term with <= {b['nodes']} nodes (as expression and predicate), a 29-text family aimed at rewrites that build new parents around existing children (aggregates over sets, implications, negated disjunctions, quantifier splitting, operand flipping), 5 annotated properties, 6 API-built nodes around deliberately untyped shared children. Pool = base + up to 13 sub-objects + objects returned by earlier calls. Alphabet: ~45 calls per expression (printers, hash/==, children/iterate, 4 reference queries, is_fully_typed, cast to 12 type sets, but() same/changed per field, reshape, 2 replacements, simplify, split_and, refactor_reference, the this/var rewrites, constructors of every node class (operators, accessors, sets, ranges, function calls, quantifiers, predicates, events) around the object, schema check), predicate, event and property calls likewise. All sequences of <= {b['depth']} state-changing calls (family: {b['family_depth']}); plus histories of length 2 over twins (two equal, separately parsed objects with different metadata: 14 expression kinds, 2 predicates, 3 properties): every ordered pair of 26 calls (12 casts, 13 constructors around the node, reshape; predicates: 11 calls, properties: 10 calls), the first on one twin and the second on the other; In the initial states every public property and every public no-argument method of each object's class (found by introspection) is also read / called. every call is followed by a deep snapshot comparison of every pool object.",
         'bounds': b,
         'exhaustive': True,
         'assumptions': ['metadata is a mutable annotation by design: the harness itself writes one key before the first snapshot'],
